@@ -58,3 +58,12 @@ func VerifResetGlobals() func() {
 	p := replicatePool
 	return func() { p.Release() }
 }
+
+var verifOutsidePools sync.Once
+
+// VerifReleaseOutsidePools stops the goroutines of the package-level pool that was created at init, outside any
+// bubble (its clock goroutine wakes up every 500 ms of real time and perturbs the run queue order of the schedule
+// explorer; every harness execution installs its own pool).
+func VerifReleaseOutsidePools() {
+	verifOutsidePools.Do(func() { replicatePool.Release() })
+}
